@@ -1,2 +1,106 @@
+(* C32 — property theorems only: each closed by [exact lemma], followed by Print Assumptions.
+   Model: C32/Model.v (Marshal / Unmarshal / unmarshalFloat of base/untyped/val.go with the go/constant and math/big
+   routines they call).  wf = Model.wfb: kind and value fit; ratVal in lowest terms with |num|, den < 2^4095 - 2^3582
+   (the exact bound under which go/constant re-reads a component as an exact fraction); floatVal with an odd mantissa
+   of at most 512 bits and an int32 exponent.  same_value = equality of the exact denotations (Float: the fraction in
+   lowest terms), because Unmarshal may return the other go/constant representation of the same number. *)
 From Coq Require Import List NArith ZArith Bool.
 From Verif Require Import Common.GoStr C32.Model C32.Proof.
+Import ListNotations.
+Open Scope Z_scope.
+
+(* decimal printing (strconv / big.Int.String, modelled by digit recursion) and MakeFromLiteral(INT) are inverse, all Z *)
+Theorem C32_decimal_roundtrip : forall z, bind (print_dec z) parse_dec = Some z.
+Proof. exact decimal_roundtrip. Qed.
+Print Assumptions C32_decimal_roundtrip.
+
+(* full strength for the kinds nil, bool, int, rune, float (both representations), string *)
+Theorem C32_roundtrip : forall k v, k <> KComplex -> wf k v ->
+  exists s v', marshal k v = Some s /\ unmarshal s = UOk k v' /\ same_value v v'.
+Proof. exact roundtrip. Qed.
+Print Assumptions C32_roundtrip.
+
+(* nil, bool, int, rune, string: the value comes back syntactically identical *)
+Theorem C32_roundtrip_exact : forall k v, k <> KComplex -> k <> KFloat -> wf k v ->
+  exists s, marshal k v = Some s /\ unmarshal s = UOk k v.
+Proof. exact roundtrip_exact. Qed.
+Print Assumptions C32_roundtrip_exact.
+
+(* Complex.  Missing for full strength: a part that is a floatVal whose exponent lies in go/constant's "small" window
+   (-4096, 4096): Unmarshal re-reads it as a fraction and BinaryOp(.., ADD, 0) sends a fraction with a denominator of
+   4096+ bits through makeRat's rounding path (round_q); the value is preserved on the real code and in the
+   correspondence run (edge values "complex floatVal0 parts", random floatVal-small parts) but exactness of round_q on
+   dyadic inputs is not proved here. *)
+Theorem C32_roundtrip_complex_partial : forall re im,
+  wf KComplex (VComplex re im) -> cpart_ok re = true -> cpart_ok im = true ->
+  exists s v', marshal KComplex (VComplex re im) = Some s /\ unmarshal s = UOk KComplex v'
+    /\ same_value (VComplex re im) v'.
+Proof. exact roundtrip_complex. Qed.
+Print Assumptions C32_roundtrip_complex_partial.
+
+(* corollary: two covered constants with the same text have the same kind and the same exact value *)
+Theorem C32_marshal_injective : forall k1 v1 k2 v2 s, covered k1 v1 -> covered k2 v2 ->
+  marshal k1 v1 = Some s -> marshal k2 v2 = Some s -> k1 = k2 /\ same_value v1 v2.
+Proof. exact marshal_injective. Qed.
+Print Assumptions C32_marshal_injective.
+
+(* strings: arbitrary bytes, any number of ':' — only the first ':' of the text separates *)
+Theorem C32_string_with_colons : forall s, unmarshal (p_string ++ c_colon :: s) = UOk KString (VString s)
+  /\ marshal KString (VString s) = Some (p_string ++ c_colon :: s).
+Proof. exact string_with_colons. Qed.
+Print Assumptions C32_string_with_colons.
+
+(* the bound of wf is sharp: 512-bit rounding keeps every component below comp_limit under 2^4095 *)
+Theorem C32_component_bound : forall q, Z.pos q < comp_limit ->
+  0 <= snd (round_pos q false) /\ Z.pos (fst (round_pos q false)) * 2 ^ snd (round_pos q false) < 2 ^ 4095.
+Proof. exact round_pos_bound. Qed.
+Print Assumptions C32_component_bound.
+
+(* ... and beyond it the faithful model REFUTES the property (replayed on the real code: known finding C32-1,
+   corpus/C32/findings.json): the Float constant 1e-1233 = 1/10^1233 comes back as a 512-bit rounded floatVal *)
+Theorem C32_roundtrip_refuted_bigrat : exists n d s v',
+  Z.gcd n (Z.pos d) = 1 /\ marshal KFloat (VFloat (FRat n d)) = Some s /\ unmarshal s = UOk KFloat v'
+  /\ ~ same_value (VFloat (FRat n d)) v'.
+Proof. exact refuted_bigrat. Qed.
+Print Assumptions C32_roundtrip_refuted_bigrat.
+
+(* ---------- non-vacuity: the hypotheses hold on non-trivial values, and what the codec does on them ---------- *)
+Example ex_third : wf KFloat (VFloat (FRat 1 3)) /\ marshal KFloat (VFloat (FRat 1 3)) = Some (bytes "float:1/3")
+  /\ unmarshal (bytes "float:1/3") = UOk KFloat (VFloat (FRat 1 3)).
+Proof. vm_compute. repeat split. Qed.
+
+Example ex_huge_int : wf KInt (VInt (10 ^ 40)) /\
+  marshal KInt (VInt (10 ^ 40)) = Some (bytes "int:10000000000000000000000000000000000000000")
+  /\ unmarshal (bytes "int:10000000000000000000000000000000000000000") = UOk KInt (VInt (10 ^ 40)).
+Proof. vm_compute. repeat split. Qed.
+
+(* "a:b:c" followed by the bytes 0xff 0x00 *)
+Example ex_string : wf KString (VString [97; 58; 98; 58; 99; 255; 0]%N) /\
+  unmarshal (bytes "string:" ++ [97; 58; 98; 58; 99; 255; 0]%N) = UOk KString (VString [97; 58; 98; 58; 99; 255; 0]%N).
+Proof. vm_compute. repeat split. Qed.
+
+(* negative zero: go/constant has none (MakeFloat64(-0.0) and -(0.0) are the fraction 0), the text is "float:0";
+   the literal "-0" is read back as 0 as well *)
+Example ex_negzero : marshal KFloat (VFloat (FRat 0 1)) = Some (bytes "float:0")
+  /\ unmarshal (bytes "float:0") = UOk KFloat (VFloat (FRat 0 1))
+  /\ unmarshal (bytes "float:-0") = UOk KFloat (VFloat (FRat 0 1)).
+Proof. vm_compute. repeat split. Qed.
+
+(* a floatVal (1 * 2^5000) and a covered complex pair *)
+Example ex_big : wf KFloat (VFloat (FBig false 1 5000)) /\
+  marshal KFloat (VFloat (FBig false 1 5000)) = Some (bytes "float:0x.8p+5001")
+  /\ unmarshal (bytes "float:0x.8p+5001") = UOk KFloat (VFloat (FBig false 1 5000)).
+Proof. vm_compute. repeat split. Qed.
+
+Example ex_complex : covered KComplex (VComplex (FRat (-1) 3) (FBig true 5 (-6000))) /\
+  marshal KComplex (VComplex (FRat (-1) 3) (FBig true 5 (-6000))) = Some (bytes "complex:-1/3:-0x.ap-5997").
+Proof. vm_compute. repeat split. Qed.
+
+(* a floatVal with a small exponent comes back as the equal fraction (the other representation) *)
+Example ex_big_small : unmarshal (bytes "float:0x.cp+2") = UOk KFloat (VFloat (FRat 3 1))
+  /\ marshal KFloat (VFloat (FBig false 3 0)) = Some (bytes "float:0x.cp+2").
+Proof. vm_compute. repeat split. Qed.
+
+(* division by zero in a hand-written text: Go panics *)
+Example ex_div0 : unmarshal (bytes "float:1/0") = UPanic.
+Proof. vm_compute. reflexivity. Qed.
